@@ -645,7 +645,27 @@ class ProgGen:
         if self.chance(0.5):
             self.feat("else")
             self.emit("else:")
-            self.block(depth)
+            if depth < 2 and self.chance(0.35) and not self.pure:
+                # the else block STARTS with a nested if and goes on after it: not an `elif`
+                self.feat("else-starting-with-if")
+                self.ind += 1
+                self.scopes.append({})
+                self.emit(f"if {self.e_bool(1)}:")
+                self.ind += 1
+                self.emit(f"mon.write({self.str_lit()})")
+                self.ind -= 1
+                if self.chance(0.4):
+                    self.emit("else:")
+                    self.ind += 1
+                    self.emit(f"mon.write({self.str_lit()})")
+                    self.ind -= 1
+                self.emit(f"mon.write({self.str_lit()})")
+                self.obs += 1
+                self.stmt(depth + 1)
+                self.scopes.pop()
+                self.ind -= 1
+            else:
+                self.block(depth)
         self.observe()
 
     def s_if_define(self, depth):
